@@ -8,6 +8,7 @@ import (
 	"net/http"
 	"os"
 	"path/filepath"
+	"regexp"
 	"strings"
 	"sync"
 
@@ -338,6 +339,8 @@ func C14(sp *spec.Spec, ex *rt.Exchange) *Verdict {
 			tag = "doc:set-cookie-header-schema"
 		case strings.HasPrefix(e, "length@") && strings.Contains(e, "[text of a "):
 			tag = "schema:bytes-length-on-base64-text"
+		case strings.HasPrefix(e, "required@body") && cls == "viewed-result" && memberOutsideView(sp, m, e, oc.View, first(headerVals(ex.WireResp.Header, "Goa-View"))):
+			tag = "doc:viewed-result-requires-attribute-outside-view"
 		case strings.HasPrefix(e, "required@body: member "):
 			for _, l := range mapped {
 				if strings.Contains(e, fmt.Sprintf("member %q missing", l.Attr)) {
@@ -468,4 +471,42 @@ func c14Tags(d *oaDoc, m *spec.Method, w *rt.WireReq, site, loc string, schemaEr
 		}
 	}
 	return tags
+}
+
+var memberRe = regexp.MustCompile(`^required@body(\[\d+\])?: member "([^"]+)" missing`)
+
+// memberOutsideView reports whether a "required member missing" complaint about the top level of a viewed result
+// (or of an element of a collection of them) names an attribute that the view used for the response does not have.
+func memberOutsideView(sp *spec.Spec, m *spec.Method, e, scripted, header string) bool {
+	mm := memberRe.FindStringSubmatch(e)
+	if mm == nil || m.Result == nil {
+		return false
+	}
+	t := m.Result.Type
+	if t.Kind == spec.Array && t.Collection && t.Elem != nil {
+		t = t.Elem.Type
+	}
+	_, ut := sp.Resolve(t)
+	if ut == nil || ut.Kind != "result" {
+		return false
+	}
+	view := header
+	if view == "" {
+		view = scripted
+	}
+	if view == "" {
+		view = "default"
+	}
+	for _, v := range ut.Views {
+		if v.Name != view {
+			continue
+		}
+		for _, a := range v.Attrs {
+			if a.Name == mm[2] {
+				return false
+			}
+		}
+		return true
+	}
+	return false
 }
